@@ -11,7 +11,8 @@ Definition cells_eq (a b : cells) : Prop := forall k, get a k = get b k.
 Definition spec_step (d : cells) (o : op) : cells :=
   match o with
   | OWrite ks v => apply_frames d (map (fun k => (k, v)) ks)
-  | OLoad c | OBoot c | OInstall c => cells_of_vec c
+  | OLoad c | OBoot c => cells_of_vec c
+  | OInstall c segs => apply_segs (cells_of_vec c) (map (fun '(ks, v) => map (fun k => (k, v)) ks) segs)
   | _ => d
   end.
 Definition spec_state (ops : list op) : cells := fold_left spec_step ops [].
@@ -92,10 +93,10 @@ Lemma applied_nat s : N.to_nat (applied s) = length (log s).
 Proof. unfold applied. apply Nnat.Nat2N.id. Qed.
 
 (* a snapshot that has just become the newest, with the database file as its content *)
-Lemma inv_new_full s d l :
-  Inv {| dbf := d; wal := []; staging := []; snaps := SFull (N.of_nat (length l)) d [] :: snaps s; full_needed := false; log := l |}.
+Lemma inv_new_full s d ws l :
+  Inv {| dbf := apply_segs d ws; wal := []; staging := []; snaps := SFull (N.of_nat (length l)) d ws :: snaps s; full_needed := false; log := l |}.
 Proof.
-  exists d. split4.
+  exists (apply_segs d ws). split4.
   - reflexivity.
   - intros _. apply cells_eq_refl.
   - unfold suffix, newest_idx; cbn. rewrite Nnat.Nat2N.id, skipn_len. cbn. apply cells_eq_refl.
@@ -110,7 +111,7 @@ Proof.
   intros Hd. unfold snapshot_step. rewrite Hd. cbn [fst].
   split.
   - unfold set_full, set_snaps, set_staging, set_dbf, applied; cbn.
-    apply (inv_new_full s).
+    exact (inv_new_full s _ [] _).
   - reflexivity.
 Qed.
 
@@ -183,7 +184,7 @@ Lemma step_preserves s o :
   Inv s' /\ cells_eq (live s') (spec_step (live s) o).
 Proof.
   intros (r & Hr & H2 & H3 & H4).
-  destruct o as [ks v|out|c| |c|c| |]; unfold step, step_gen.
+  destruct o as [ks v|out|c| |c|c segs| |]; unfold step, step_gen.
   - (* write *)
     cbn [fst apply_phys]. set (w := map (fun k => (k, v)) ks). split.
     + exists r. unfold set_dbf, add_log ; st. split4.
@@ -265,7 +266,7 @@ Proof.
   - (* install *)
     cbn [fst spec_step]. split; [|apply cells_eq_refl].
     unfold set_staging, set_dbf, set_full, set_snaps, applied; st.
-    apply (inv_new_full s).
+    exact (inv_new_full s _ _ _).
   - (* reap *)
     cbn [spec_step].
     destruct (snaps s) as [|x [|y l]] eqn:Es; cbn [fst].
